@@ -18,6 +18,8 @@ from __future__ import absolute_import
 #    You should have received a copy of the GNU General Public License
 #    along with this program.  If not, see <http://www.gnu.org/licenses/>.
 
+import copy
+
 from mingus.containers.mt_exceptions import UnexpectedObjectError
 
 
@@ -73,8 +75,10 @@ class Composition(object):
 
         Everything container.Track supports in __add__ is accepted.
         """
-        for n in self.selected_tracks:
-            self.tracks[n] + note
+        for (i, n) in enumerate(self.selected_tracks):
+            # Every track after the first gets objects of its own: a Bar or
+            # NoteContainer shared between tracks would grow in all of them
+            self.tracks[n] + (note if i == 0 else copy.deepcopy(note))
 
     def set_title(self, title="Untitled", subtitle=""):
         """Set the title and subtitle of the piece."""
